@@ -243,7 +243,7 @@ def execute(scenario, prefix, critical_only):
                     probs.append(f"after join, {name}: {p}")
         if ns.get("f") is not f or ns.get("g") is not g:
             probs.append("after join the module globals f/g are not the functions any more")
-        extra = [k for k in ns if k is None or (isinstance(k, str) and not k.startswith(("__", "_ptera__")) and k not in ("f", "g"))]
+        extra = [k for k in ns if k is None or (isinstance(k, str) and not k.startswith(("__", "_ptera")) and k not in ("f", "g"))]
         if extra:
             probs.append(f"module globals polluted: {extra!r}")
     world.reset_context()
